@@ -505,7 +505,27 @@ class Interp:
         if k == 'assert':
             return [(t.j['target'], store, heap)]
         if k == 'switch':
-            if heap.get('filled') is False and self.is_eof_switch(body, blk):
+            if self.is_eof_switch(body, blk):
+                # which edge means "buffer is full" (length not less than the capacity)?
+                full_t = self.full_edge(body, blk)
+                v0 = self.eval_op(body, t.discr, store, heap)
+                outs = []
+                for val, tg in [(vv, tg) for vv, tg in t.targets] + [(None, t.otherwise)]:
+                    if body.blocks[tg].term.k == 'unreachable' and not body.blocks[tg].stmts:
+                        continue
+                    hp = heap.copy()
+                    if hp.get('filled') is False:
+                        self.violate_at('BUF-2', body, t.line, 'eof-verdict-on-unfilled-buffer',
+                                        'an end-of-input verdict (buffer length < capacity) is taken although the buffer was altered in this call and not refilled', hp)
+                    if full_t is not None:
+                        hp['full'] = True if tg == full_t else hp.get('full')
+                    st2 = dict(store)
+                    if not t.discr.is_const and t.discr.place.is_local():
+                        st2[t.discr.place.local] = B(val != 0) if val is not None else B(True)
+                    outs.append((tg, st2, hp))
+                if v0[0] not in ('b', 'int'):
+                    return outs
+            if False:
                 self.violate_at('BUF-2', body, t.line, 'eof-verdict-on-unfilled-buffer',
                                 'an end-of-input verdict (buffer length < capacity) is taken although the buffer was altered in this call and not refilled', heap)
             v = self.eval_op(body, t.discr, store, heap)
@@ -729,13 +749,22 @@ class Interp:
                 return outs
         # ---------- buffer protocol ghost `filled` (BUF-2): altering the buffer un-fills it, a successful refill fills it
         if args and isinstance(args[0], tuple) and args[0][:1] == ('rselfp',) and args[0][1][:1] == ('buf_reader',):
+            if c.is_('buffer_redux::BufReader::reserve'):
+                self.events['grow'] += 1
+                if heap.get('full') is False:
+                    self.violate('GROW-7', body, t, 'growth-without-full-buffer',
+                                 'the buffer is enlarged although, since the last refill, it was not found to be full (the record may simply not have been read completely yet, e.g. at the end of the input)', heap)
             if c.is_('std::io::BufRead::consume', 'buffer_redux::BufReader::make_room', 'buffer_redux::BufReader::reserve', 'std::io::Seek::seek'):
                 heap['filled'] = False
+                heap['full'] = False
             if cb is not None and cb.path in self.refills:
                 for v in self.havoc(dest_ty):
                     hp = heap.copy()
                     if v[0] == 'e' and v[2] == 'Ok':
                         hp['filled'] = True
+                        hp['full'] = False       # no evidence yet that the refilled buffer is full
+                    else:
+                        hp['full'] = '?'         # histories after a failed refill are exempt
                     finish(v, hp)
                 return outs
         # ---------- crate-internal callee on &mut self / &self
@@ -801,6 +830,29 @@ class Interp:
         for body, parent, item in self.call_ctx:
             out.append('%s: bb%s' % (body.key, '>'.join(str(x) for x in self.path_of(parent, item))))
         return out
+
+    def full_edge(self, body, blk):
+        """successor of an end-of-input test on which the buffer is full (len >= capacity)"""
+        t = body.blocks[blk].term
+        for r in roots_of(body, t.discr, DefUse(body)):
+            if r[0] == 'bin':
+                op = r[1].rv.j['op']
+                first_is_len = any(d[0] == 'call' and d[1].callee and d[1].callee.name == 'len' for d in roots_of(body, r[1].rv.ops[0], DefUse(body)))
+                zero = [tg for v, tg in t.targets if v == 0]
+                zero = zero[0] if zero else None
+                if op in ('Lt',) and first_is_len:       # len < cap : false edge = full
+                    return zero
+                if op in ('Ge',) and first_is_len:
+                    return t.otherwise
+                if op in ('Gt',) and not first_is_len:   # cap > len
+                    return zero
+                if op in ('Le',) and not first_is_len:   # cap <= len
+                    return t.otherwise
+                if op == 'Eq':
+                    return t.otherwise
+                if op == 'Ne':
+                    return zero
+        return None
 
     def is_eof_switch(self, body, blk):
         key = (body.path, blk)
